@@ -118,8 +118,10 @@ func (t *NonNull) CoerceOut(v interface{}) (interface{}, error) {
 //   ofType: __Type
 func (t *NonNull) Resolve(field *Field, args map[string]interface{}) (interface{}, error) {
 	switch field.Name {
-	case kindStr, descriptionStr:
+	case kindStr:
 		return "NON_NULL", nil
+	case descriptionStr:
+		return nil, nil
 	case nameStr:
 		return t.Name(), nil
 	case ofTypeStr:
